@@ -493,9 +493,12 @@ namespace Givaro {
     inline bool Poly1FactorDom<Domain,Tag, RandomIterator>::is_irreducible2( const Rep& P
                                                                              , Residu_t MOD ) const
     {
-        // Square free ?
-        Rep W,D; this->gcd(W,diff(D,P),P);
+        Rep W,D;
         Degree d, dP;
+        // zero and the non-zero constants (units) are not irreducible
+        if (this->degree(dP,P) <= 0) return 0;
+        // Square free ?
+        this->gcd(W,this->diff(D,P),P);
         if (this->degree(d,W) > 0) return 0;
         IntFactorDom<> FD;
 
@@ -505,7 +508,9 @@ namespace Givaro {
         FD.pow( qn, IntFactorDom<>::Rep(MOD), n);
         Rep Unit, G1; this->init(Unit, Degree(1));
         this->powmod(G1, Unit, qn, P);
-        if (this->degree(d, sub(D,G1,Unit)) >= 0) return 0;
+        // X^(q^n) - X must vanish modulo P (G1 is reduced, X is not when n = 1)
+        this->modin(this->sub(D,G1,Unit), P);
+        if (this->degree(d, D) >= 0) return 0;
 
         std::vector<IntFactorDom<>::Rep> Lp; std::vector<uint64_t> Le;
         FD.set(Lp, Le, n );
@@ -513,7 +518,9 @@ namespace Givaro {
             int64_t ttmp;
             FD.pow( qn, IntFactorDom<>::Rep(MOD), n/FD.convert(ttmp,*p) );
             this->powmod(G1, Unit, qn, P);
-            if (this->degree(d, sub(D,G1,Unit)) < 0) return 0;
+            // Rabin's test: X^(q^(n/p)) - X must be coprime to P (being non-zero modulo P is not enough)
+            this->gcd(W, this->sub(D,G1,Unit), P);
+            if (this->degree(d, W) > 0) return 0;
         }
 
         return 1;
@@ -558,7 +565,7 @@ namespace Givaro {
     inline typename IntegerDom::Element Poly1FactorDom<Domain,Tag, RandomIterator>::order( const Rep& P, const Rep& F)  const
     {
         bool isproot = 0;
-        Rep A, G; mod(A,P,F);
+        Rep A, G; this->mod(A,P,F);
         Degree d;
         if ( this->degree(d, this->gcd(G,A,F)) == 0) {
             Residu_t MOD = _domain.residu();
